@@ -25,6 +25,7 @@ let call_of_token (tok : string) : call =
   | ["close"] -> CClose
   | ["stop"] -> CStop
   | ["drop"] -> CDropStore
+  | ["pdrop"] -> CDropStore      (* dropped while the owner unwinds from a panic: same call *)
   | ["th"; k; b] -> CThunk (i k, body_of_string b)
   | ["tk"; k; b] -> CTask (i k, body_of_string b)
   | ["panic"] -> CPanic
